@@ -374,6 +374,7 @@ def lexer(s: str, g=PVLGrammar(), d=PVLDecoder()):
 
     lexeme = ""
     preserve = dict(state=Preserve.FALSE, end=None)
+    comment_closer = None
     for i, char in enumerate(s):
         if not g.char_allowed(char):
             raise LexerError(
@@ -387,13 +388,29 @@ def lexer(s: str, g=PVLGrammar(), d=PVLDecoder()):
         prev_char = _prev_char(s, i)
         next_char = _next_char(s, i)
 
+        if comment_closer is not None and i - 1 == comment_closer:
+            # The previous character has already been used up as the
+            # end of a comment, so it cannot also start one ("*/*").
+            prev_char = None
+
         # print(repr(f'lexeme at top: ->{lexeme}<-, char: {char}, '
         #            f'prev: {prev_char}, next: {next_char}, '
         #            f'{preserve}'))
 
+        was_preserving = preserve
         (lexeme, preserve) = lex_char(
             char, prev_char, next_char, lexeme, preserve, g, c_info
         )
+
+        if (
+            was_preserving["state"] == Preserve.COMMENT
+            and preserve["state"] == Preserve.FALSE
+            and was_preserving["end"] is not None
+            and len(was_preserving["end"]) == 2
+        ):
+            # A two-character comment end is recognized on its first
+            # character, the second one is the next character.
+            comment_closer = i + 1
 
         # print(repr(f'       at bot: ->{lexeme}<-,          '
         #            f'                  '
